@@ -242,10 +242,10 @@ fn simpler(op: &Op) -> Vec<Op> {
                 out.push(Op::RawMut { m: *m, k: k2, how: *how, chain: chain.clone(), p: *p });
             }
         }
-        Op::Extend { m, items, by_ref } => {
+        Op::Extend { m, items, by_ref, hint } => {
             if items.len() > 1 {
-                out.push(Op::Extend { m: *m, items: items[..items.len() / 2].to_vec(), by_ref: *by_ref });
-                out.push(Op::Extend { m: *m, items: items[items.len() / 2..].to_vec(), by_ref: *by_ref });
+                out.push(Op::Extend { m: *m, items: items[..items.len() / 2].to_vec(), by_ref: *by_ref, hint: *hint });
+                out.push(Op::Extend { m: *m, items: items[items.len() / 2..].to_vec(), by_ref: *by_ref, hint: *hint });
             }
         }
         Op::FromIter { m, items } => {
